@@ -11,7 +11,7 @@ from harness.drivers import gen_dsl as G
 ID = "C22"
 PROP_FILE = "Props/C22.v"
 THEOREMS = ["C22_contingency_wrapper_refines_spec", "C22_finalize_wrapper_refines_spec",
-            "C22_finalize_decorator_refines_spec", "C22_python_try_is_spec",
+            "C22_finalize_decorator_refines_spec", "C22_finalize_decorator_fresh_cleanup_per_call", "C22_python_try_is_spec",
             "C22_final_plan_at_most_once", "C22_final_plan_once_unless_generator_exit",
             "C22_no_cleanup_when_closed_in_plan", "C22_outcome_preserved"]
 COQ_IMPORTS = "From BV Require Import Gen.Coalg Gen.PyGen Gen.Wrappers Gen.Tie."
